@@ -193,6 +193,7 @@ class Built:
         self.parent = {}        # name -> name of the owning scheduler
         self.members = {}       # scheduler name -> [member names]
         self.edges = {}         # scheduler name -> [(a requires b) names]
+        self.watch = None
 
 
 def build(spec, loop=None):
@@ -224,6 +225,13 @@ def build(spec, loop=None):
                 b.edges[name].append((sp['members'][i]['name'], sp['members'][j]['name']))
             kw = dict(jobs_window=sp.get('window'), timeout=sp.get('timeout'),
                       shutdown_timeout=sp.get('shutdown_timeout', 1), name=name, trace=b.trace)
+            if spec.get('watch'):
+                # one Watch shared by the whole tree, created when the tree is built (so older than every run);
+                # documented as a display aid only: it must not change what happens
+                if b.watch is None:
+                    from asynciojobs import Watch
+                    b.watch = Watch(show_elapsed=False)
+                kw['watch'] = b.watch
             if sp.get('pure') and top:
                 o = LPureScheduler(*mem, **kw)
             else:
